@@ -74,7 +74,15 @@ template <class T> static void run_T(Choice &c, Ctx &cx)
     VF_REQUIRE(cx, ret == 0 || ret == 2, "return-value", "structurally nonsingular matrix (perfect matching exists) but ldperm returned %d", ret);
     if (tie_class && !is_perm(perm.data(), n)) { cx.exclude("F-MC64"); cx.label("F-MC64:perm-not-a-bijection"); return; }
     VF_REQUIRE(cx, is_perm(perm.data(), n), "perm", "perm is not a bijection: %s", vec_str(std::vector<int>(perm.begin(), perm.begin() + n)).c_str());
-    if (ret == 2) { cx.label("scaling-may-overflow(warning)"); return; }
+    if (ret == 2) {
+        // "some scaling factors may be too large": only justified when exponentiating a returned dual can come near the
+        // overflow threshold of the working precision, i.e. some |u_i| or |v_j| reaches half its logarithm (the library
+        // uses log(DBL_MAX)/2 = 354.9 for every type, which satisfies this bound for all four)
+        LD big = 0; for (int i = 0; i < n; ++i) if (std::isfinite((double)u[i]) && std::isfinite((double)v[i])) big = std::max(big, std::max(std::fabs((LD)u[i]), std::fabs((LD)v[i]))); else big = 1e9L;
+        LD need = 0.5L * std::log((LD)std::numeric_limits<R>::max()) - 1;
+        VF_REQUIRE(cx, big >= need, "unjustified-overflow-warning", "ldperm returned 2 (scaling factors may overflow) for a structurally nonsingular matrix whose largest dual is %Lg: exp(%Lg) is nowhere near the overflow threshold of this precision (half its logarithm is %Lg)", big, big, need + 1);
+        cx.label("scaling-may-overflow(warning)"); return;
+    }
     LD uu = (LD)Tr<T>::eps();
     LD maxuv = 0; for (int i = 0; i < n; ++i) { VF_REQUIRE(cx, std::isfinite((double)u[i]) && std::isfinite((double)v[i]), "scaling", "u[%d]=%g v[%d]=%g not finite", i, (double)u[i], i, (double)v[i]); maxuv = std::max(maxuv, std::max(std::fabs((LD)u[i]), std::fabs((LD)v[i]))); }
     LD tol = 64 * uu * n * (1 + std::max(maxlog, maxuv)) + 1e-12L;
